@@ -290,6 +290,7 @@ CHECKS["C14"] = {
         {"part": "keystore", "pkg": "./provider/keystore/", "test": "TestVerif_C14_Keystore", "quick": 400, "thorough": 6000},
         {"part": "sweeping-provider", "pkg": "./provider/", "test": "TestVerif_C14_SweepingProvider", "quick": 60, "thorough": 1600},
         {"part": "dual", "pkg": "./dual/", "test": "TestVerif_C14_Dual", "quick": 600, "thorough": 3000},
+        {"part": "refresh-manager", "pkg": "./rtrefresh/", "test": "TestVerif_C14_RefreshManager", "quick": 800, "thorough": 10000},
     ],
 }
 
